@@ -134,7 +134,18 @@ func (v *varValidator) validateVarType(typ *ast.Type, val reflect.Value) (reflec
 				return val, err
 			}
 			// keep an item that was coerced to a list
-			if cval.IsValid() && cval.Kind() != field.Kind() && cval.Type().AssignableTo(elem.Type()) {
+			replaced := cval.IsValid() && (cval.Kind() != field.Kind() ||
+				(cval.Kind() == reflect.Slice && (cval.Type() != field.Type() || cval.Pointer() != field.Pointer())))
+			if replaced {
+				if !cval.Type().AssignableTo(elem.Type()) {
+					// a statically typed slice cannot hold the coerced item, carry on with a generic copy
+					generic := reflect.MakeSlice(reflect.TypeOf([]interface{}{}), val.Len(), val.Len())
+					for j := 0; j < val.Len(); j++ {
+						generic.Index(j).Set(val.Index(j))
+					}
+					val = generic
+					elem = val.Index(i)
+				}
 				elem.Set(cval)
 			}
 		}
